@@ -608,6 +608,15 @@ def batches(rng, tier):
         for t_ in ["1 a", " 1", "11", "a", "-1 ", ""]:
             for sq in seqs(tsteps, 3, 3):
                 ops.append(f"tst N {hx(t_)} " + ",".join(sq))
+    for t_ in all_strings(" ab(1,)", 3 if thorough else 2) + ["a b", "(1)", "(1,1)", "b a ", "(1,1) a", "a(1)"]:
+        for sq in seqs(["n3", "n5", "v1", "v2", "c", "g", "xi32", "xs"], 3 if thorough else 2):
+            ops.append(f"tst N {hx(t_)} " + ",".join(sq))
+    for t_ in ["a b", "(1)a", "b", " a", "(1,1)"]:
+        for sq in seqs(["n3", "n5", "v1", "v2", "c", "p"], 2):
+            ops.append("tst W " + whx([ord(c) for c in t_]) + " " + ",".join(sq))
+    for t_ in all_strings("\xffa", 2) + ["\xff \xff", " \xff", "\xfe\xff\x80"]:
+        for sq in seqs(["g", "p", "xc", "xs"], 3):
+            ops.append(f"tst N {hx(t_)} " + ",".join(sq))
     for _ in range(10000 if thorough else 1500):
         text = "".join(r.choice(" \n1270-+ax(),") for _ in range(r.range(0, 8)))
         sq = [r.choice(tsteps + ["xi16", "xu32", "xi64", "xu64", "e28", "e2c", "e29", "e20"]) for _ in range(r.range(1, 7))]
@@ -827,7 +836,121 @@ def extra_checks(binp, rng, tier, ev):
     ev["coverage"]["utf8_rule"] = {"ops": len(ops), "not_complete_or_failure": len(other) + len(known), "of_these_known_finding_class": len(known),
                                    "rule": "result of widen_locale/narrow_locale in C.utf8 == strict conversion by the plugin's own coder, 'exc'/'none' iff ill-formed"}
     # anything outside the listed class first: it must never be hidden behind the known finding
-    return other[:3] + known[:1]
+    return other[:3] + float_checks(binp, rng, tier, ev) + known[:1]
+
+
+# ---------------------------------------------------------------- float / double through decimal text: an exact oracle
+FLT_FMT = {"f32": (24, -126, 127, "<f", "<I", 32), "f64": (53, -1022, 1023, "<d", "<Q", 64)}
+
+
+def bits_to_float(ty, bits):
+    import struct
+    _, _, _, ff, fi, _ = FLT_FMT[ty]
+    return struct.unpack(ff, struct.pack(fi, bits))[0]
+
+
+def float_text(ty, bits):
+    """what `os << v` writes with the default precision 6 and default float field (printf %g; glibc prints the sign of a NaN)"""
+    import math
+    nbits = FLT_FMT[ty][5]
+    x = bits_to_float(ty, bits)
+    if math.isnan(x):
+        return "-nan" if bits >> (nbits - 1) else "nan"
+    return "%g" % x
+
+
+def parse_exact(ty, text):
+    """the correctly rounded (nearest-even) value of the decimal numeral `text` in the format, as bits; None = the
+    extraction fails (not a numeral libstdc++ accepts, or out of range: strtof/strtod return HUGE_VAL)"""
+    import re
+    import struct
+    from fractions import Fraction
+    p, emin, emax, ff, fi, nbits = FLT_FMT[ty]
+    if not re.fullmatch(r"[+-]?(\d+(\.\d*)?|\.\d+)([eE][+-]?\d+)?", text):
+        return None
+    neg = text.startswith("-")
+    q = abs(Fraction(text))
+    if q == 0:
+        return (1 << (nbits - 1)) if neg else 0
+    e = q.numerator.bit_length() - q.denominator.bit_length()
+    if Fraction(2) ** e > q:
+        e -= 1
+    e = max(e, emin)
+    quantum = Fraction(2) ** (e - p + 1)
+    n = q / quantum
+    fl = n.numerator // n.denominator
+    rem = n - fl
+    if rem > Fraction(1, 2) or (rem == Fraction(1, 2) and fl % 2 == 1):
+        fl += 1
+    val = fl * quantum
+    if val >= Fraction(2) ** (emax + 1):
+        return None
+    b = struct.unpack(fi, struct.pack(ff, float(val)))[0]
+    return b | (1 << (nbits - 1)) if neg else b
+
+
+def float_patterns(r, ty, n):
+    nbits = FLT_FMT[ty][5]
+    out = [v for v in lattice(ty)]
+    for _ in range(n):
+        k = r.below(4)
+        if k == 0:
+            out.append(r.below(1 << nbits))
+        elif k == 1:    # short decimals: these round-trip
+            x = r.range(-999999, 999999) * 10.0 ** r.range(-30, 30)
+            import struct
+            out.append(struct.unpack(FLT_FMT[ty][4], struct.pack(FLT_FMT[ty][3], x))[0])
+        elif k == 2:    # small integers and halves
+            import struct
+            out.append(struct.unpack(FLT_FMT[ty][4], struct.pack(FLT_FMT[ty][3], r.range(-2000000, 2000000) / 2.0))[0])
+        else:           # exponent boundaries
+            e = r.below(1 << (nbits - FLT_FMT[ty][0]))
+            out.append((r.below(2) << (nbits - 1)) | (e << (FLT_FMT[ty][0] - 1)) | r.choice([0, 1, (1 << (FLT_FMT[ty][0] - 1)) - 1, r.below(1 << (FLT_FMT[ty][0] - 1))]))
+    return out
+
+
+def float_checks(binp, rng, tier, ev):
+    """output_to_std_string / extract_from_string for float and double against printf-%g and an exact-rational parser of
+    this file's own: the code writes 6 significant digits, so the round trip holds exactly for the values that are the
+    nearest float to their own 6-digit decimal; for the others the text is read back as THAT decimal's nearest float (a
+    different value — documented, the statement claims the round trip for integers only) or, for inf/nan, fails."""
+    from vlib.runner import run_harness
+    r = rng.fork("float-text")
+    ops, want, meta = [], [], []
+    for ty in ("f32", "f64"):
+        for bits in float_patterns(r, ty, 6000 if tier == "thorough" else 1200):
+            text = float_text(ty, bits)
+            back = parse_exact(ty, text)
+            ops.append(f"rtf {ty} {bits}")
+            want.append("s=" + hx(text) + " r=" + ("none" if back is None else str(back)))
+            meta.append((ty, bits, back))
+        for text in ["1", "-0", "0.5", "1e3", "1e+3", "1E3", ".5", "5.", "1e", "e1", "1e+", "+.5e-1", "1.5x", " 1.5", "1.5 ", "inf", "nan", "-inf", "0x10", "1e39", "1e309", "1e-400",
+                     "3.4028235e38", "3.4028236e38", "1.7976931348623157e308", "1.7976931348623159e308", "4.9e-324", "2.4703282292062328e-324", "1.4e-45", "7e-46",
+                     "16777217", "9007199254740993", "0.1", "123456789012345678901234567890", "--1", "+-1", "1..2", ""]:
+            if text.strip() != text or text == "":
+                want_r = "none" if text != " 1.5" else None
+            else:
+                want_r = None
+            back = parse_exact(ty, text.strip()) if text == " 1.5" else parse_exact(ty, text)
+            ops.append(f"eff {ty} {hx(text)}")
+            want.append(want_r if want_r is not None else ("none" if back is None else str(back)))
+            meta.append(None)
+    lines, deaths = run_harness(binp, ops)
+    out, rt = [], {"f32": [0, 0], "f64": [0, 0]}
+    for op, w, got, m in zip(ops, want, lines, meta):
+        if m is not None and got not in ("NOT-RUN", "SKIPPED-AFTER-DEATH", None):
+            rt[m[0]][1] += 1
+            if m[2] == m[1]:
+                rt[m[0]][0] += 1
+        if got in ("NOT-RUN", "SKIPPED-AFTER-DEATH", None) or got == w:
+            continue
+        out.append({"kind": "input", "batch": "float-text-oracle", "batch_kind": "stateless", "ops": [op], "expected": [w], "observed": [got],
+                    "what": f"float/double decimal text differs from printf-%g / the correctly rounded parse: {op!r} -> {got!r}, expected {w!r}"})
+    ev["coverage"]["float_text"] = {"ops": len(ops), "differences": len(out),
+                                    "bit_exact_round_trips": {k: f"{v[0]} of {v[1]}" for k, v in rt.items()},
+                                    "rule": "output_to_std_string(float|double) == '%g' % v; extract_from_string == correctly rounded value of the text (exact rational arithmetic), "
+                                            "'none' for inf/nan/overflow/trailing characters; outside the Lean model"}
+    return out[:3]
 
 
 def _known_entry(findings):
